@@ -213,8 +213,16 @@ func render(v ssa.Value, d int) string {
 	case *ssa.BinOp:
 		return "(" + render(v.X, d+1) + " " + v.Op.String() + " " + render(v.Y, d+1) + ")"
 	case *ssa.Call:
+		if s, ok := inlineHelperResult(v, 0, d); ok {
+			return s
+		}
 		return renderCall(&v.Call, d)
 	case *ssa.Extract:
+		if c, isCall := v.Tuple.(*ssa.Call); isCall {
+			if s, ok := inlineHelperResult(c, v.Index, d); ok {
+				return s
+			}
+		}
 		if n, ok := v.Tuple.(*ssa.Next); ok {
 			it := render(n.Iter, d+1)
 			switch v.Index {
